@@ -685,6 +685,12 @@ func grpcGunExtra(t *tr) string {
 			}
 		}
 	}
+	{
+		into, resetArgs, resetBody := grpcgunNetAmmoFacts(ap, jp)
+		b.WriteString("/-- what `grpcjson.decodeAmmo($0 = line, $1 = pooled ammo)` decodes the JSON line into -/\ndef ammoDecodeInto : String := " + ggQuote(into) + "\n\n")
+		b.WriteString("/-- what the pooled ammo object is reset with -/\ndef ammoResetCall : String := " + ggQuote(resetArgs) + "\n\n")
+		b.WriteString("/-- the body of `(*Ammo).Reset($0 = tag, $1 = call, $2 = metadata, $3 = payload)` -/\ndef ammoResetBody : String := " + ggQuote(resetBody) + "\n\n")
+	}
 	b.WriteString("/-- how `grpcjson.decodeAmmo` represents the numbers of a payload (`json.Number` keeps the literal as written;\n`float64` rounds integers above 2^53) -/\ndef payloadNumbers : String := " + ggQuote(numbers) + "\n\n")
 
 	// ---- ConvertGrpcStatus: what OK and InvalidArgument (the example service's two replies) are reported as
